@@ -279,6 +279,11 @@ func VerifSetup_spell() {
 	verifREs = append(verifREs, verifCompile(verifParam("pattern"), verifParamInt("options"), ""))
 	verifREs = append(verifREs, verifCompile(verifParam("pattern_inline"), verifParamInt("options_rest"), ""))
 	verifREs = append(verifREs, verifCompile(verifParam("pattern_wrap"), verifParamInt("options_rest"), ""))
+	if p := verifParam("pattern_off"); p != "" {
+		// every option on at compile time, the unwanted ones switched off inline; and (?on-off:...)
+		verifREs = append(verifREs, verifCompile(p, verifParamInt("options_all"), ""))
+		verifREs = append(verifREs, verifCompile(verifParam("pattern_onoff"), 0, ""))
+	}
 	if verifParam("ast") != "" {
 		verifSpec = verifParseSpec(verifParam("ast"))
 		verifNG = verifParamInt("ngroups")
